@@ -46,7 +46,7 @@ out.append("### 9.4 Independent seeded changes (fresh agents, property text only
            "Each change compiles, passes the 44 unit tests and comes with a demonstration that fails with it and passes without it;\n"
            "all of that was re-confirmed by `tools/keep_mutant.sh` in a scratch worktree before it was kept under `seeded/<id>/`\n"
            "(patch.diff, demo, meta.json with the commands run and the check's output).  Rounds: `_1`,`_2` first round, `_r2` second,\n"
-           "`_3` third; each later round was written against the list of earlier ideas.  `first` = verdict of the owning check when the\n"
+           "`_3` third, `_4` fourth, `_5` fifth; each later round was written against the list of earlier ideas.  `first` = verdict of the owning check when the\n"
            "change arrived; `final` = verdict of the check as committed (tools/recheck_seeded.sh).  concrete = `VIOLATION ... replay=<file>`\n"
            "with a failing input; nfif = `no-failing-input-found`.\n")
 out += ["| seeded id | change | first | final |", "|---|---|---|---|"]
